@@ -691,6 +691,7 @@ _frame_re = re.compile(r'^File "(?P<filepath>.+)", line (?P<lineno>\d+)'
                        r', in (?P<funcname>.+)$')
 _se_frame_re = re.compile(r'^File "(?P<filepath>.+)", line (?P<lineno>\d+)')
 _underline_re = re.compile(r'^[~^ ]*$')
+_repeat_re = re.compile(r'^\[Previous line repeated (?P<count>\d+) more times?\]$')
 
 # TODO: ParsedException generator over large bodies of text
 
@@ -746,13 +747,22 @@ class ParsedException:
         """
         lines = ['Traceback (most recent call last):']
 
+        last_key, count = None, 0
         for frame in self.frames:
+            key = (frame['filepath'], frame['lineno'], frame['funcname'])
+            if key != last_key:
+                lines.extend(_repeated_str(count).splitlines())
+                last_key, count = key, 0
+            count += 1
+            if count > _RECURSIVE_CUTOFF:
+                continue
             lines.append('  File "{}", line {}, in {}'.format(frame['filepath'],
                                                            frame['lineno'],
                                                            frame['funcname']))
             source_line = frame.get('source_line')
             if source_line:
                 lines.append(f'    {source_line}')
+        lines.extend(_repeated_str(count).splitlines())
         if self.exc_msg:
             lines.append(f'{self.exc_type}: {self.exc_msg}')
         else:
@@ -803,6 +813,14 @@ class ParsedException:
         line_no = start_line
         while True:
             frame_line = tb_lines[line_no].strip()
+            repeat_match = frames and _repeat_re.match(frame_line)
+            if repeat_match:
+                # the traceback module's summary of a recursion: the
+                # previous entry, N more times
+                frames.extend(dict(frames[-1]) for _
+                              in range(int(repeat_match.group('count'))))
+                line_no += 1
+                continue
             frame_match = frame_re.match(frame_line)
             if frame_match:
                 frame_dict = frame_match.groupdict()
@@ -814,6 +832,7 @@ class ParsedException:
                 next_line_stripped = next_line.strip()
                 if (
                         frame_re.match(next_line_stripped) or
+                        _repeat_re.match(next_line_stripped) or
                         # The exception message will not be indented
                         # This check is to avoid overrunning on eval-like
                         # tracebacks where the last frame doesn't have source
